@@ -262,6 +262,67 @@ pub fn cmd_spec(r: &mut Runner, t: &[&str]) -> String {
     }
 }
 
+fn check_trace(trace: &str, nrows: usize, batch: usize, fd: usize) -> Result<(), String> {
+    use std::collections::{BTreeMap, BTreeSet};
+    let mut kv: BTreeMap<usize, usize> = BTreeMap::new();
+    let mut unions: BTreeMap<usize, Vec<(usize, Vec<String>)>> = BTreeMap::new();
+    for l in trace.lines() {
+        let p: Vec<&str> = l.split(' ').collect();
+        match p[0] {
+            "kv" => {
+                kv.insert(p[1].parse().map_err(|_| "bad kv line")?, p[2].parse().map_err(|_| "bad kv line")?);
+            }
+            "union" => {
+                let g: usize = p[1].parse().map_err(|_| "bad union line")?;
+                let i: usize = p[2].parse().map_err(|_| "bad union line")?;
+                let files: Vec<String> = p.get(3).unwrap_or(&"").split(',').filter(|x| !x.is_empty()).map(|x| x.to_string()).collect();
+                unions.entry(g).or_default().push((i, files));
+            }
+            _ => {}
+        }
+    }
+    let b = batch.max(1);
+    let nb = (nrows + b - 1) / b;
+    if kv.len() != nb || kv.keys().cloned().collect::<Vec<_>>() != (0..nb).collect::<Vec<_>>() {
+        return Err(format!("{} kv batches traced, {} expected", kv.len(), nb));
+    }
+    if kv.values().sum::<usize>() != nrows || kv.values().any(|&n| n == 0 || n > b) {
+        return Err("batch sizes do not partition the rows".into());
+    }
+    let mut prev: BTreeSet<String> = (0..nb).map(|i| format!("batch{}", i)).collect();
+    let mut g = 0;
+    while prev.len() > 1 {
+        let us = unions.get(&g).ok_or_else(|| format!("generation {} missing with {} results pending", g, prev.len()))?;
+        let mut used: BTreeSet<String> = BTreeSet::new();
+        let mut short = 0;
+        for (_, files) in us {
+            if files.is_empty() || files.len() > fd.max(1) {
+                return Err(format!("generation {}: a union over {} inputs (fd-limit {})", g, files.len(), fd));
+            }
+            if files.len() < fd {
+                short += 1;
+            }
+            for f in files {
+                if !prev.contains(f) || !used.insert(f.clone()) {
+                    return Err(format!("generation {}: input {} is not an unused result of the previous generation", g, f));
+                }
+            }
+        }
+        if used != prev {
+            return Err(format!("generation {}: {} of {} previous results were not merged", g, prev.len() - used.len(), prev.len()));
+        }
+        if short > 1 {
+            return Err(format!("generation {}: {} groups smaller than fd-limit", g, short));
+        }
+        prev = us.iter().map(|(i, _)| format!("union-gen{}-batch{}", g, i)).collect();
+        g += 1;
+    }
+    if unions.keys().any(|&k| k >= g) {
+        return Err("unions after a single result remained".into());
+    }
+    Ok(())
+}
+
 fn merge_oracle(mode: &str, rows: &Kv) -> Kv {
     let mut m: BTreeMap<Vec<u8>, u64> = BTreeMap::new();
     for (k, v) in rows {
@@ -317,6 +378,10 @@ pub fn cmd_merge(r: &mut Runner, t: &[&str]) -> String {
                 text.push_str(&format!("{},{}\n", ks, v));
             }
         }
+        // half of the cases: files without a final newline
+        if (salt >> 16) & 1 == 1 && text.ends_with('\n') {
+            text.pop();
+        }
         std::fs::write(&path, text).unwrap();
         inputs.push(path);
     }
@@ -346,7 +411,12 @@ pub fn cmd_merge(r: &mut Runner, t: &[&str]) -> String {
     if seed != "0" {
         cmd.env("FST_VERIF_SEED", seed);
     }
+    let trace_path = format!("{}/trace-{}.txt", dir, tag);
+    let _ = std::fs::remove_file(&trace_path);
+    cmd.env("FST_VERIF_TRACE", &trace_path);
     let out = cmd.output().unwrap();
+    let trace = std::fs::read_to_string(&trace_path).unwrap_or_default();
+    let _ = std::fs::remove_file(&trace_path);
     let line = t.join(" ");
     for p in &inputs {
         let _ = std::fs::remove_file(p);
@@ -364,6 +434,19 @@ pub fn cmd_merge(r: &mut Runner, t: &[&str]) -> String {
             return "merge unreadable".into();
         }
     };
+    // the grouping the real run used (hook trace) has the structure the model assumes:
+    // consecutive batches, then generations of unions that each consume every result of
+    // the previous generation exactly once in groups of at most fd-limit
+    if !trace.is_empty() {
+        if let Err(e) = check_trace(&trace, rows.len(), batch.parse().unwrap(), fd.parse().unwrap()) {
+            r.check(false, || format!("C19 merge structure: {} :: {}", e, line));
+        } else {
+            r.checks += 1;
+        }
+        let mut sig: Vec<&str> = trace.lines().filter(|l| l.starts_with("union")).collect();
+        sig.sort();
+        r.groupings.insert(sig.join(";"));
+    }
     let got = f.stream().into_byte_vec();
     let want = merge_oracle(mode, &rows);
     r.check(got == want, || format!("C19 {} gives {} want {}", line, show_kvs(&got), show_kvs(&want)));
